@@ -6,7 +6,7 @@ import subprocess
 import time
 
 REPO = os.environ.get("VERIF_REPO", "/repo")
-TARGET = os.environ.get("VERIF_LOOM_TARGET", "/verif/harness/target-loom")
+TARGET = os.environ.get("VERIF_LOOM_TARGET", os.path.join(os.path.dirname(os.path.dirname(os.path.abspath(__file__))), "harness", "target-loom"))
 MODELS_C12 = [
     "m1_writer_vs_acknowledge",
     "m2_writer_vs_close",
@@ -18,7 +18,21 @@ MODELS_C12 = [
     "m9_writer_vs_acknowledge_then_close",
     "m10_two_writers_one_credit",
     "m11_writer_vs_two_granting_threads",
+    "m12_push_frames_vs_two_granting_threads",
+    "m13_writer_vs_two_grants_vs_close",
+    "m14_five_writes_three_grants",
+    "m15_shutdown_vs_close_vs_grant",
+    "m16_two_parking_writers_one_credit_vs_grant",
+    "m17_two_parking_writers_one_credit_vs_close",
 ]
+# Models whose unbounded DPOR search is expensive: preemption bounds per tier (None = unbounded).
+# Measured on the unchanged tree: m12 unbounded 4.1e5 interleavings / 18 s; m14 unbounded 1.2e7 / 410 s;
+# m13 (four threads) bound 3: 4.8e4 / 3 s, bound 4: 4.5e5 / 27 s, bound 5: 3.4e6 / 186 s, unbounded: not finished in 600 s.
+DEEP_BOUNDS = {
+    "m12_push_frames_vs_two_granting_threads": {"quick": [3], "thorough": [None]},
+    "m13_writer_vs_two_grants_vs_close": {"quick": [3], "thorough": [5]},
+    "m14_five_writes_three_grants": {"quick": [3], "thorough": [None]},
+}
 MODELS_C07 = ["m7_concurrent_flow_id_allocation"]
 # an abort must reach a writer parked on credit (part of C06's decision: sub-poll interleavings)
 MODELS_C06 = ["m2_writer_vs_close", "m6_writer_with_credit_vs_close", "m9_writer_vs_acknowledge_then_close"]
@@ -102,13 +116,14 @@ def run(pid, tier, replay, rawdir, models=None):
         bounds = [None]
     else:
         bounds = [3, None]
-    per_model_timeout = 600 if tier == "thorough" else 25
+    per_model_timeout = 1800 if tier == "thorough" else 25
     total_iters = 0
     total_outcomes = 0
     table = []
     completed_bounds = {}
     for model in models:
-        for b in bounds:
+        mb = bounds if (replay or model not in DEEP_BOUNDS) else DEEP_BOUNDS[model][tier if tier in ("quick", "thorough") else "quick"]
+        for b in mb:
             r = run_model(exe, model, b, per_model_timeout)
             if r.get("missing"):
                 continue
@@ -136,7 +151,7 @@ def run(pid, tier, replay, rawdir, models=None):
     raw["states"] = total_iters
     raw["transitions"] = total_iters
     raw["exhaustive"] = not raw["caps_hit"] and all(v == "unbounded" for v in completed_bounds.values()) and bool(completed_bounds)
-    raw["bounds"] = {"models": len(models), "preemption_bounds_tried": [("unbounded" if b is None else b) for b in bounds], "completed_bound_per_model": completed_bounds}
+    raw["bounds"] = {"models": len(models), "preemption_bounds_tried": [("unbounded" if b is None else b) for b in bounds], "per_model_bounds": {m: [("unbounded" if b is None else b) for b in v[tier if tier in ("quick", "thorough") else "quick"]] for m, v in DEEP_BOUNDS.items() if m in models}, "completed_bound_per_model": completed_bounds}
     raw["extra"] = {"per_model": table, "distinct_outcomes": total_outcomes,
                     "note": "states/transitions report complete interleavings explored by loom (loom does not expose state counts)"}
     if not raw["violations"] and not completed_bounds:
